@@ -17,11 +17,14 @@ func init() {
 type c17Aux struct {
 	Late  []int // client indexes that start after the cancel
 	Kinds []string
+	// after Serve has returned it is called once more, on a fresh listener (a caller
+	// retrying, or a second listener brought up late): the cancellation still holds
+	SecondServe bool
 }
 
 func drawC17(t *rapid.T) *Case {
 	p := &Plan{Check: "C17", Backend: BackendPlan{Resp: map[string]*RespPlan{}}}
-	aux := &c17Aux{}
+	aux := &c17Aux{SecondServe: drawBool(t, "secondserve", 30)}
 	n := rapid.IntRange(0, 5).Draw(t, "nconn")
 	var metas []*ClientMeta
 	kinds := []string{"h1ok", "h1idle_close", "h2ok", "h2idle", "abort_handshake", "stall_wait", "h1slow", "noneok", "h1fresh"}
@@ -178,6 +181,25 @@ func oracleC17(w *World, c *Case) {
 	}
 	if !w.Front.IsClosed() {
 		w.Violate("listener_open", "listener_open", "%s: Serve returned but the listening socket is still open", c.Summary)
+	}
+	if aux.SecondServe && w.Srv != nil {
+		ln2 := w.Net.NewListener(tcpAddr("192.0.2.1:9443"))
+		done2 := make(chan error, 1)
+		go func() { done2 <- w.Srv.Serve(ln2) }()
+		w.SettleTime(3)
+		select {
+		case err2 := <-done2:
+			if !errors.Is(err2, http.ErrServerClosed) {
+				w.Violate("second_serve_error", "second_serve_error", "%s: Serve called again after the cancellation returned %v, want http.ErrServerClosed", c.Summary, err2)
+			}
+			if !ln2.IsClosed() {
+				w.Violate("second_listener_open", "second_listener_open", "%s: Serve called again after the cancellation returned but left its listening socket open", c.Summary)
+			}
+			w.Probe("second_serve_returned")
+		default:
+			ln2.Close()
+			w.Violate("second_serve_did_not_return", "second_serve_did_not_return", "%s: Serve called again (fresh listener) after the cancellation and the first shutdown had completed did not return within 3 s", c.Summary)
+		}
 	}
 	ref := w.CancelledAt
 	if lastExchange > ref {
